@@ -285,9 +285,17 @@ func rewriteFile(p *packages.Package, f *ast.File, fname, rel, root string) ([]S
 					}
 					switch {
 					case isPkgFunc(info, x, "golang.org/x/tools/go/packages", "Load"):
+						// packages.Load(cfg, pats...) -> verifsim.Load("site", cfg, pats...): owns the result order AND
+						// the order in which the project's files enter the FileSet
 						id := mkSite("pkgload", fd, x.Pos(), "")
-						add(x.Pos(), fmt.Sprintf("verifsim.Pkgs(%q)(", id))
-						add(x.End(), ")")
+						// second site of the same call: the order in which the project's files enter the FileSet
+						sites = append(sites, Site{ID: id + "/parse", Kind: "parseorder", File: relFile, Line: fset.Position(x.Pos()).Line, Family: "packages"})
+						keep[sel.X.(*ast.Ident).Name+".Load"] = true
+						edits = append(edits, edit{off: tf.Offset(x.Fun.Pos()), text: "verifsim.Load /*", seq: seq})
+						seq++
+						edits = append(edits, edit{off: tf.Offset(x.Fun.End()), text: "*/", seq: seq})
+						seq++
+						add(x.Lparen+1, fmt.Sprintf("%q, ", id))
 					case isPkgFunc(info, x, "github.com/bmatcuk/doublestar/v4", "FilepathGlob"),
 						isPkgFunc(info, x, "github.com/bmatcuk/doublestar/v4", "Glob"),
 						isPkgFunc(info, x, "path/filepath", "Glob"):
